@@ -458,9 +458,22 @@ public:
 
         // Copy handler into std::function BEFORE forwarding into Record.
         // std::forward<F> may move from handler, so the copy must happen first.
-        std::function<void()> storedFn(handler);
-        _periodicTimers.emplace(id, PeriodicTimer{id, interval, deadline, false, std::move(storedFn)});
-        _records.emplace(id, Record{deadline, Handler{std::forward<F>(handler)}, false});
+        // Every firing checks a flag shared with cancel(): a firing that the
+        // run loop has already collected (moved out of _records) but not yet
+        // started must not run once cancel() has returned true.
+        auto stopped = std::make_shared<std::atomic<bool>>(false);
+        std::function<void()> userFn(handler);
+        std::function<void()> storedFn(
+          [stopped, userFn]()
+          {
+            if (!stopped->load(std::memory_order_acquire))
+            {
+              userFn();
+            }
+          });
+        _records.emplace(id, Record{deadline, Handler{storedFn}, false});
+        _periodicTimers.emplace(
+          id, PeriodicTimer{id, interval, deadline, false, std::move(storedFn), std::move(stopped)});
         _heap.emplace_back(HeapItem{deadline, id});
         siftUp(_heap.size() - 1);
 
@@ -524,6 +537,9 @@ public:
             }
           }
         }
+
+        // Suppress a firing that is already collected but not yet started
+        periodicIt->second.stopped->store(true, std::memory_order_release);
 
         // Erase the entry to prevent unbounded accumulation
         _periodicTimers.erase(periodicIt);
@@ -932,6 +948,7 @@ private:
     TimePoint nextExecution;
     bool canceled{false};
     std::function<void()> handler; ///< Copyable handler for rescheduling
+    std::shared_ptr<std::atomic<bool>> stopped; ///< Set by cancel(); checked by every firing
   };
 
   static bool less(const HeapItem &a, const HeapItem &b)
